@@ -607,23 +607,28 @@ def divexact_by3c (x : List Nat) (ci : Nat) : List Nat × Nat :=
   let (qs, acc) := divexactBy3Go m x ((ci * m) % B)
   (qs, (acc * (B - 3)) % B)
 
-/-- loop of mpn/x86_64/modexact_1c_odd.as (label0/label1): x = current limb with the previous borrow
-    already subtracted, cb = that borrow, h = high product (initially the carry-in). -/
-def modexactGo (d inv : Nat) : List Nat → Nat → Nat → Nat → Nat
-  | [], x, cb, h =>
-      let y := (x + B - h) % B                        -- sub rax, rdx
-      let cb := cb + (if x < h then 1 else 0)         -- adc rcx, 0
-      let q := (y * inv) % B                          -- imul rax, r9
-      let (h, _) := umul_ppmm q d                     -- mul r8
-      (cb + h) % B                                    -- lea rax, [rcx+rdx]
-  | s :: ss, x, cb, h =>
-      let y := (x + B - h) % B
-      let cb := cb + (if x < h then 1 else 0)
-      let q := (y * inv) % B
-      let (h, _) := umul_ppmm q d
-      let x := (s + B - cb) % B                       -- mov rax,[..]; sub rax, rcx
-      let cb := if s < cb then 1 else 0               -- setc cl
-      modexactGo d inv ss x cb h
+/-- body shared by label0 and label1 of mpn/x86_64/modexact_1c_odd.as:
+    `sub rax, rdx ; adc rcx, 0 ; imul rax, r9 ; mul r8`.  x = current limb with the previous borrow already
+    subtracted, cb = that borrow, h = high product (initially the carry-in).  Returns (rcx, rdx). -/
+def modexactStep (d inv x cb h : Nat) : Nat × Nat :=
+  let y := (x + B - h) % B                        -- sub rax, rdx
+  let cb := cb + (if x < h then 1 else 0)         -- adc rcx, 0
+  let q := (y * inv) % B                          -- imul rax, r9
+  (cb, (umul_ppmm q d).1)                         -- mul r8
+
+/-- one trip through label0 of mpn/x86_64/modexact_1c_odd.as with the next limb s:
+    state = (rax, rcx, rdx) = (x, cb, h). -/
+def modexactNext (d inv : Nat) (st : Nat × Nat × Nat) (s : Nat) : Nat × Nat × Nat :=
+  let r := modexactStep d inv st.1 st.2.1 st.2.2
+  ((s + B - r.1) % B,                                 -- mov rax,[..]; sub rax, rcx
+   if s < r.1 then 1 else 0,                          -- setc cl
+   r.2)
+
+/-- loop of mpn/x86_64/modexact_1c_odd.as: label0 for every further limb, then label1. -/
+def modexactGo (d inv : Nat) (rest : List Nat) (x cb h : Nat) : Nat :=
+  let st := rest.foldl (modexactNext d inv) (x, cb, h)
+  let r := modexactStep d inv st.1 st.2.1 st.2.2
+  (r.1 + r.2) % B                                     -- lea rax, [rcx+rdx]
 
 /-- mpn_modexact_1c_odd (assembly, mpn/x86_64/modexact_1c_odd.as); size ≥ 1, d odd. -/
 def modexact_1c_odd (src : List Nat) (d c : Nat) : Nat :=
